@@ -292,7 +292,7 @@ func (c GenCfg) Big(r *prng.Rand, l int) *Geom {
 	for i := range cs {
 		cs[i] = c.coord(r, l)
 	}
-	switch r.Intn(3) {
+	switch r.Intn(5) {
 	case 0:
 		return &Geom{T: LS, L: l, P: [][][]Coord{{cs}}}
 	case 1:
@@ -301,6 +301,29 @@ func (c GenCfg) Big(r *prng.Rand, l int) *Geom {
 			pts[i] = []Coord{cs[i]}
 		}
 		return &Geom{T: MPt, L: l, P: [][][]Coord{pts}}
+	case 2, 3:
+		// many small parts: part counts around 255/256 (a count kept in a byte)
+		// and 300; rings of a polygon, lines, or polygons of one ring
+		k := []int{254, 255, 256, 257, 300}[r.Intn(5)]
+		parts := make([][]Coord, k)
+		for i := range parts {
+			if r.Chance(0.9) {
+				parts[i] = []Coord{cs[i%n], cs[(i+1)%n]}
+			} else {
+				parts[i] = []Coord{}
+			}
+		}
+		switch r.Intn(3) {
+		case 0:
+			return &Geom{T: Pg, L: l, P: [][][]Coord{parts}}
+		case 1:
+			return &Geom{T: MLS, L: l, P: [][][]Coord{parts}}
+		}
+		pgs := make([][][]Coord, k)
+		for i := range pgs {
+			pgs[i] = [][]Coord{parts[i]}
+		}
+		return &Geom{T: MPg, L: l, P: pgs}
 	}
 	return &Geom{T: Pg, L: l, P: [][][]Coord{{cs, {}}}}
 }
